@@ -785,7 +785,7 @@ impl Simulation for EditSim {
     if name == "thorough" {
       TierCfg { name: "thorough".into(), max_runs: 3_000_000, secs: 600 }
     } else {
-      TierCfg { name: "quick".into(), max_runs: 24_000, secs: 100 }
+      TierCfg { name: "quick".into(), max_runs: 48_000, secs: 100 }
     }
   }
   fn run(&self, seed: u64, _tier: &str, _known: &KnownFindings) -> RunReport {
